@@ -98,6 +98,15 @@ theorem C01_global_commands (ops : List Op) (c : Cmd) (hc : c ∈ (runOps ops).c
   · rw [h] at j; exact j
   · rw [h] at j; exact j
 
+/-- **The signal is backed by a probe that succeeded**, after every schedule: `everOk` is a ghost field of the
+    model whose only writer is `probeComplete` (`everOk := everOk || success`); a target whose became-healthy
+    signal is raised — or is about to be raised by a probe loop parked before the rotation refresh — has
+    `everOk`. Together with `C01_global_slots`: every target of every load balancer that can carry traffic has
+    answered at least one health probe successfully. -/
+theorem C01_global_signal_backed (ops : List Op) (t : Tgt) (ht : t ∈ (runOps ops).tgts) :
+    (t.signaled = true → t.everOk = true) ∧ (∀ c, t.loop = .parked c true → t.everOk = true) :=
+  (J_runOps ops).tok t ht
+
 /-- the rotation of every load balancer is drawn from its own targets, after every schedule -/
 theorem C01_global_rotation (ops : List Op) (l : Lb) (hl : l ∈ (runOps ops).lbs) (tid : Nat) (h : tid ∈ l.healthy) :
     tid ∈ l.targets :=
